@@ -46,7 +46,7 @@ manifest = {
     ],
     "checks": checks,
     "not_applicable": [{"property_id": p, "reason": NOT_APPLICABLE.get(p, "check not built yet in this round (planned in DESIGN.md §4); not claimed until it exists")} for p in ALL if p not in BUILT],
-    "notes": "Exit codes of every command: 0 held, 1 VIOLATION line printed, 2 undecided (harness could not build against the edited tree, watchdog, reference-model self-test failed, fuzz engine failure). known_findings.json lists five repaired defects (status fixed, each a 'fix:' commit in /repo) and no open finding, so no KNOWN-FINDING line is ever printed at present. Quick tier: dbg profile (both profiles for C04 and C17), seconds per property after a 10-60 s incremental rebuild; thorough tier: 20x the case counts in both profiles plus libFuzzer campaigns for C03/C10/C14/C16. VERIF_SEED, VERIF_TIER, VERIF_SCALE (case-count multiplier), VERIF_FUZZ_RUNS are honoured. seeded/RESULTS.md lists 200+ independently written breaking changes and which check reports each.",
+    "notes": "Exit codes of every command: 0 held, 1 VIOLATION line printed, 2 undecided (harness could not build against the edited tree, watchdog, reference-model self-test failed, fuzz engine failure). known_findings.json lists five repaired defects (status fixed, each a 'fix:' commit in /repo) and no open finding, so no KNOWN-FINDING line is ever printed at present. Quick tier: dbg profile (both profiles for C04 and C17), 2-120 s per property after a 10-60 s incremental rebuild (8-14 min for all twenty); thorough tier: 20x the case counts in both profiles plus libFuzzer campaigns for C03/C10/C14/C16. VERIF_SEED, VERIF_TIER, VERIF_SCALE (case-count multiplier), VERIF_FUZZ_RUNS are honoured. seeded/RESULTS.md lists 304 independently written breaking changes in fourteen rounds and which check reports each (300 by the quick tier of the named check; the four others are the residual described in DESIGN.md section 6), plus five negative controls on which every check is silent.",
 }
 json.dump(manifest, open(os.path.join(HERE, "MANIFEST.json"), "w"), indent=1)
 print("checks:", len(checks), "not_applicable:", len(manifest["not_applicable"]))
